@@ -152,6 +152,10 @@ class ControlServer(ABC, Generic[ClientT]):
             The serving task. To stop the server, that task should be cancelled.
         """
         log.debug("Starting %s...", self.__class__.__name__)
+        # A serving task of an earlier call that has yet to finish is
+        # superseded from here on (see `_serve_forever`), not only once the
+        # new server instance exists: it may finish while we wait for that.
+        self._server = None
         self._server = await self._get_server_instance(
             self._client_connected_cb, **self._server_kwargs
         )
